@@ -110,7 +110,8 @@ structure Shape where
   des : Option Nat
 
 /-- circuit.py:394-405.  A `None` entry of `impl_out_lines` raises at its first use (at the latest in the loop that
-connects the outputs, which visits every entry), so it is reported here. -/
+connects the outputs, which visits every entry), so it is reported here.  When the walk from the first output ends at a
+port of the implementation (feed-through cell) there is no designated cell (repair of D32). -/
 def implShape (m : Circ) : Option Shape :=
   let inPorts := m.io.filter fun p => (m.nobj p).ins.length == 0
   let outL := (m.io.filter fun p => (m.nobj p).ins.length != 0).map fun p => pin (m.nobj p).ins 0
@@ -121,7 +122,8 @@ def implShape (m : Circ) : Option Shape :=
     | [] => some none
     | l0 :: _ => match (m.lobj l0).driver with
       | none => none
-      | some d => (walkDes m (m.nodes.length + 1) d).map some
+      | some d => (walkDes m (m.nodes.length + 1) d).map fun n =>
+          if inIos m n then none else some n                       -- `None if n in ios else n` (repair of D32)
   match d0 with
   | none => none
   | some d0 =>
